@@ -61,8 +61,8 @@ PROBES = ['split_inside_crlf', 'split_inside_multibyte', 'eintr_retried', 'exoti
           'zero_graphs', 'nbsp', 'empty_meta_value_crlf_kept', 'utf16', 'decode_error_reference',
           'yielded_prefix_nonempty', 'interleaved_iterators']
 
-CONTAINERS = ['lines', 'lines_lf', 'lines_keep', 'gen', 'tuple', 'stringio', 'simfile', 'simpath',
-              'simpath_enc', 'realfile', 'iterparse_lines', 'iterparse_simfile']
+CONTAINERS = ['lines', 'lines_lf', 'lines_keep', 'gen', 'tuple', 'stringio', 'simfile', 'simfile_raw', 'simtext',
+              'simpath', 'simpath_enc', 'realfile', 'iterparse_lines', 'iterparse_simfile']
 CHUNK_CHOICES = [[1], [2], [3], [7], [64], [4096], [1, 2, 3], [5, 1], [1, 64]]
 BUF_CHOICES = [1, 2, 3, 8, 16, 64, 8192]
 TCHUNK_CHOICES = [1, 2, 5, 16, 64, 8192]
@@ -109,6 +109,10 @@ def plan(rng, idx, tier):
     style = {'nl': srng.chance(0.6), 'indent': srng.pick([0, 1, 3, 4]),
              'sep': srng.weighted([('blank', 4), ('newline', 3), ('space', 2), ('blank3', 1), ('tab', 1)]),
              'final_newline': srng.chance(0.7), 'meta_one_line': srng.chance(0.15)}
+    if srng.chance(0.12):
+        style['meta_gap'] = True
+    if srng.chance(0.12):
+        style['inner_blank'] = True
     if srng.chance(0.1):
         style['leading'] = srng.pick(['\n', '\n\n', '  ', '# leading comment\n', '\t\n'])
     if srng.chance(0.08):
@@ -353,6 +357,16 @@ def run_container(cname, trace, T, data, enc, model, fs, rp, compare, Rtc, res):
         fh = _reader(fs, '/sim/in.penman', trace, rp, encoding=enc)
         got, exc = _call(lambda: penman.load(fh, model=model))
         fh.close()
+    elif cname == 'simfile_raw':
+        # a file opened with newline='': lines end at LF, CRLF and CR but are not translated
+        fh = _reader(fs, '/sim/in.penman', trace, rp, newline='', encoding=enc)
+        got, exc = _call(lambda: penman.load(fh, model=model))
+        fh.close()
+    elif cname == 'simtext':
+        # a text stream that is not a TextIOWrapper (socket file, pipe wrapper): untranslated
+        # terminators and short read()s at the character level
+        st = SimTextStream(T, (rp.get('chunks') or [4096]))
+        got, exc = _call(lambda: penman.load(st, model=model))
     elif cname == 'simpath':
         if enc != 'utf-8':
             return
@@ -405,6 +419,48 @@ def _diff(want, got):
             out['first_difference'] = d
             break
     return out
+
+
+class SimTextStream(io.TextIOBase):
+    """File-like text source with its own framing: iteration / readline split at LF, CRLF and CR and
+    keep the terminator; read(n) returns short chunks (cyclic plan), possibly ending between CR and LF."""
+
+    def __init__(self, text, chunks):
+        self.text, self.pos, self.chunks, self.calls = text, 0, list(chunks), 0
+
+    def readable(self):
+        return True
+
+    def read(self, n=-1):
+        size = self.chunks[self.calls % len(self.chunks)]
+        self.calls += 1
+        if n is None or n < 0:
+            n = len(self.text)
+        k = max(1, min(n, size))
+        out = self.text[self.pos:self.pos + k]
+        self.pos += len(out)
+        return out
+
+    def readline(self, size=-1):
+        t, i = self.text, self.pos
+        if i >= len(t):
+            return ''
+        j = i
+        while j < len(t) and t[j] not in '\r\n':
+            j += 1
+        if j < len(t):
+            j += 2 if t[j] == '\r' and t[j + 1:j + 2] == '\n' else 1
+        self.pos = j
+        return t[i:j]
+
+    def __iter__(self):
+        return self
+
+    def __next__(self):
+        line = self.readline()
+        if not line:
+            raise StopIteration
+        return line
 
 
 def dump_bytes(graphs, model, d):
